@@ -503,6 +503,43 @@ theorem recs_items_time (S : Schema) (n : Nat) (d : MsgD) (k : Nat) (f : FieldD)
         injection hd' with hd'; subst hd'
         exact narrow32U_secNanos S n p
 
+theorem subDesc_wraps (S : Schema) (f : FieldD) (w : PType) (h : WrapsField f w) : subDesc S f = some (wrapperD w) := by
+  unfold subDesc
+  rw [h.ty, h.wr]
+  rfl
+
+theorem recs_items_wrap (S : Schema) (n : Nat) (d : MsgD) (k : Nat) (f : FieldD) (w : PType)
+    (hd : NumsDistinct d.fields) (hk : d.fields[k]? = some f) (hwf : WrapsField f w) :
+    ∀ (xs : List Val) (b : Bytes), (∀ x ∈ xs, scalarOk w x = true) → dumpItems S f xs = .ok b →
+      b.length < 2 ^ 64 → Recs (fun pf => narrowFieldU S (narrow32U S n) d pf = true) b := by
+  intro xs
+  induction xs with
+  | nil =>
+    intro b _ h _
+    rw [dumpItems_nil] at h; injection h with h; subst h
+    exact Recs.nil _
+  | cons x xs ihx =>
+    intro b hx h hbl
+    have hx0 := hx x (by simp)
+    rw [dumpItems_wrap S f w x xs hwf.ty hwf.wr hx0] at h
+    cases hp : wrapperBytes S w x with
+    | error e => rw [hp] at h; simp at h
+    | ok p =>
+      rw [hp] at h; simp only [bind_ok] at h
+      cases hr : dumpItems S f xs with
+      | error e => rw [hr] at h; simp at h
+      | ok r =>
+        rw [hr] at h; simp only [bind_ok] at h
+        injection h with h; subst h
+        simp only [List.length_append] at hbl
+        refine Recs.append (recs_len S _ d k f p hd hk hwf.num (by omega)
+          (fun hc => by rw [hwf.ty] at hc; exact absurd hc (by decide)) ?_)
+          (ihx r (fun y hy => hx y (by simp [hy])) hr (by omega))
+        intro d' hd'
+        rw [subDesc_wraps S f w hwf] at hd'
+        injection hd' with hd'; subst hd'
+        exact narrow32U_wrapper S w x p n hwf.wty hx0 hp (by omega)
+
 /-! ### map fields: one record per entry -/
 
 theorem dumpEntries_nil_left (S : Schema) (f : FieldD) (vs : List Val) : dumpEntries S f [] vs = .ok [] := by
@@ -785,6 +822,11 @@ theorem recs_slot (S : Schema) (n : Nat) (ih : ∀ m, m ≤ n → DumpNar S m)
     have hs : selectedInGroup f k cur = false := by unfold selectedInGroup; rw [htf.grp]
     rw [hh, hs, dumpSlot_times S f true xs htf] at hb
     exact recs_items_time S n d k f true hd hk htf xs b hxs hb hbl
+  | wraps _ w xs hwf hxs =>
+    have hh : hidden f k cur = false := by unfold hidden; rw [hwf.grp]
+    have hs : selectedInGroup f k cur = false := by unfold selectedInGroup; rw [hwf.grp]
+    rw [hh, hs, dumpSlot_wraps S f w xs hwf] at hb
+    exact recs_items_wrap S n d k f w hd hk hwf xs b hxs hb hbl
   | mapT _ isDur ks vs hmf _ hks hvs _ =>
     refine recs_map S n d k f cur ks vs b hd hk hmf.ty hmf.num hmf.kty hmf.rep hmf.opt hmf.grp hks ?_ hb hbl
     intro x hx m _ sv hsv hsl
